@@ -226,4 +226,34 @@ theorem cdf_odd_convex_error (d : Params ℝ) (k : ℕ) (hc : d.c = 2 * k + 1) (
   rw [e]
   exact herr
 
+
+/-- the mixture form of the *density* of `X + s·N` at `t`: `h(t) = ∫₀¹ dN(t, s²)(x) · p x^{p−1} dx` -/
+noncomputable def mixtureDensity (p s t : ℝ) : ℝ := ∫ x in (0:ℝ)..1, dens t s x * (p * x ^ (p - 1))
+
+/-- **Model = Spec for the density, even `c ≥ 2`** (series regime, both shapes): `(b−a)·pdf(y) = h(loc)`, the
+mixture density with `p = c/2` — the final clip at `0` never acts. -/
+theorem pdf_even_eq_mixtureDensity (d : Params ℝ) (k : ℕ) (hc : d.c = 2 * k + 2) (hab : d.a ≤ d.b)
+    (hp : pointMass (realFns T ninf pinf) d = false) (h : regime (realFns T ninf pinf) d = .nothing) (y : ℝ) :
+    (d.b - d.a) * pdf (realFns T ninf pinf) d y = mixtureDensity (k + 1) (d.o / (d.b - d.a)) (locOf d y) := by
+  obtain ⟨ho, hw⟩ := nothing_pos (realFns_lawful T ninf pinf) d hab h
+  have hs : 0 < d.o / (d.b - d.a) := div_pos ho hw
+  rw [pdf_even T ninf pinf d k hc hab hp h y]
+  have hg0 : 0 ≤ gmom (locOf d y) (d.o / (d.b - d.a)) 0 1 k := by
+    unfold gmom
+    apply intervalIntegral.integral_nonneg zero_le_one
+    intro x hx
+    exact mul_nonneg (pow_nonneg hx.1 k) (dens_nonneg _ _ hs x)
+  have hc0 : (0:ℝ) ≤ (d.c : ℝ) / (2 * (d.b - d.a)) := by positivity
+  rw [max_eq_right (mul_nonneg hc0 hg0)]
+  unfold mixtureDensity gmom
+  have e : ∀ x : ℝ, dens (locOf d y) (d.o / (d.b - d.a)) x * (((k:ℝ) + 1) * x ^ ((k:ℝ) + 1 - 1))
+      = ((k:ℝ) + 1) * (x ^ k * dens (locOf d y) (d.o / (d.b - d.a)) x) := by
+    intro x
+    have : (k:ℝ) + 1 - 1 = (k:ℝ) := by ring
+    rw [this, Real.rpow_natCast]; ring
+  simp only [e]
+  rw [intervalIntegral.integral_const_mul, hc]
+  push_cast
+  field_simp
+
 end Opda.Noisy
